@@ -105,6 +105,8 @@ def canonical(bs: List[int], addr: int) -> bool:
         elif tn == "Reg3":
             if o.reg_raw & 0x08:
                 return False
+            if getattr(ins, "opcode", None) == 0x11 and ((o.reg_raw & 7) < 4 or (o.reg_raw >> 4)):
+                return False          # JP r3: a pointer register, no mode bits
         if hasattr(o, "extra_hi") and isinstance(getattr(o, "extra_hi"), int):
             if o.extra_hi & 0xF0:
                 return False
